@@ -68,10 +68,51 @@ pub fn run(ctx: &mut Ctx) {
         "type § { a: Int }", "\"d\" type § { a: Int }", "type T { §: Int }", "type T { \"d\" §: Int }", "type T { f(§: Int): Int }", "type T { f(\"d\" §: Int): Int }",
         "{ §: a }", "{ a: § }", "{ § }", "query § { a }", "mutation § @d { a }", "type T implements § { a: Int }", "type T implements & § & A { a: Int }", "union U = §", "union U = | § | A",
         "directive @§ on FIELD", "directive @d on §", "directive @d repeatable on § | FIELD", "{ a @§ }", "scalar §", "\"d\" scalar §", "input § { a: Int }", "interface § { a: Int }",
-        "schema { query: § }", "extend schema { mutation: § }", "{ a(§: 1) }", "{ a(x: {§: 1}) }", "query($§: Int) { a }", "query($v: §) { a }", "query($v: [§!]) { a }", "extend scalar § @d"];
+        "schema { query: § }", "extend schema { mutation: § }", "{ a(§: 1) }", "{ a(x: {§: 1}) }", "query($§: Int) { a }", "query($v: §) { a }", "query($v: [§!]) { a }", "extend scalar § @d",
+        // (audit G1) the remaining definition names and name positions
+        "union § = A", "\"d\" union § @d", "enum § { A }", "extend type § @d", "extend interface § @d", "extend union § = A", "extend enum § { A }", "extend input § { a: Int }", "subscription § { a }",
+        "type T { f(x: Int): § }", "type T { f: [§] }", "input I { §: Int }", "input I { a: § }", "enum E { A @§ }", "query($v: Int @§) { a }", "type T @§ { f: Int }", "{ ... on T { ... on § { a } } }",
+        "{ ...§ ...§ }", "{ a { § } }", "{ §(x: 1) }", "{ § @d }", "{ § { a } }", "{ §: §(§: §) @§(§: §) { § } }", "query § ($§: § = §) @§ { § }", "fragment § on § @§ { § }", "extend schema @§",
+        "directive @d(§: Int) on FIELD", "directive @d(x: §) repeatable on FIELD", "interface § implements § { §: § }", "type § implements § & § @§ { §(§: § = §): § }",
+        "enum § @§ { § @§ }", "input § @§ { §: § = § @§ }", "union § @§ = § | §", "schema @§ { query: § }", "scalar § @§(§: §)"];
     let names = ["true", "false", "null", "on", "a", "query", "fragment", "type", "extend", "schema", "implements", "repeatable", "input", "enum", "FIELD", "mutation", "subscription"];
     for t in templates { for n in names { one(ctx, &t.replace('§', n)); } }
     ctx.stat_n("restricted_name_cases", (templates.len() * names.len()) as u64);
+    // (audit G1) systematic families, the same on every seed — see pfam.rs
+    {
+        use crate::pfam::*;
+        let mut fam = |ctx: &mut Ctx, name: &str, docs: Vec<String>| { let n = docs.len(); for d in &docs { one(ctx, d); } ctx.stat_n(&format!("family:{name}"), n as u64); };
+        // every definition kind × every combination of absent / present / empty / malformed optional parts
+        fam(ctx, "definition-skeletons", definition_skeletons());
+        // every value position × values with and without variables (Const positions must reject a variable at any depth)
+        fam(ctx, "value-position-notconst", fill(VALUE_POS_NOTCONST, VALUE_FILLERS));
+        fam(ctx, "value-position-const", fill(VALUE_POS_CONST, VALUE_FILLERS));
+        // a description (none / string / block string / two strings) at every place where one may and may not stand
+        fam(ctx, "description-placement", fill(DESC_POS, DESC_FILLERS));
+        // the boundary between two definitions: all ordered pairs of minimal definitions (also: three in a row)
+        let mut pairs = vec![];
+        for a in MINIMAL_DEFS { for b in MINIMAL_DEFS { pairs.push(format!("{a} {b}")); } }
+        for (i, a) in MINIMAL_DEFS.iter().enumerate() { pairs.push(format!("{a}\n{}\n{a}", MINIMAL_DEFS[(i * 7 + 3) % MINIMAL_DEFS.len()])); }
+        fam(ctx, "definition-pairs", pairs);
+        // every directive location, alone, in a list, after a leading `|`, in the wrong case
+        let locs = ["QUERY", "MUTATION", "SUBSCRIPTION", "FIELD", "FRAGMENT_DEFINITION", "FRAGMENT_SPREAD", "INLINE_FRAGMENT", "VARIABLE_DEFINITION", "SCHEMA", "SCALAR", "OBJECT", "FIELD_DEFINITION",
+            "ARGUMENT_DEFINITION", "INTERFACE", "UNION", "ENUM", "ENUM_VALUE", "INPUT_OBJECT", "INPUT_FIELD_DEFINITION", "query", "Field", "FIELD_", "OBJECT_TYPE", "TYPE", "ARGUMENT", "INPUT_FIELD", "on", "repeatable"];
+        let mut ld = vec![];
+        for l in locs { for t in ["directive @d on §", "directive @d on | §", "directive @d on FIELD | §", "directive @d on § | FIELD", "directive @d(x: Int) repeatable on § type T", "directive @d on § | §"] { ld.push(t.replace('§', l)); } }
+        fam(ctx, "directive-locations", ld);
+        // every single-token deletion / duplication / adjacent swap / insertion of each of 24 tokens at every boundary, of one rich
+        // instance of every definition kind
+        let mut edits = vec![];
+        let mut kinds = std::collections::BTreeMap::new();
+        for d in RICH { one(ctx, d); token_edits(d, if ctx.thorough { EDIT_INSERTS } else { &EDIT_INSERTS[..18] }, |k, s| { *kinds.entry(k.to_string()).or_insert(0u64) += 1; edits.push(s); }); }
+        for (k, v) in kinds { ctx.stat_n(&format!("family:token-edits:{k}"), v); }
+        fam(ctx, "token-edits", edits);
+        // ignored tokens (comma, comment, BOM, CRLF) in every gap of the rich instances: acceptance must not change
+        // (look-ahead past ignored tokens: description → keyword, extend → keyword, `...` → on, alias `:`)
+        let mut gaps = vec![];
+        for d in RICH { fill_gaps(d, &[",", "#c\n", "\u{feff}", "\r\n"], |s| gaps.push(s)); }
+        fam(ctx, "ignored-token-in-every-gap", gaps);
+    }
     let mut seqs = vec![];
     token_seqs(&["{", "}", "(", ")", ":", "$", "@", "a", "on", "query", "type", "extend", "schema", "...", "1"], if ctx.thorough { 6 } else { 5 }, |s| seqs.push(s.to_string()));
     ctx.stat_n("token_seqs", seqs.len() as u64);
